@@ -134,14 +134,16 @@ let () =
     let take = match only with Some o -> o = k | None -> k mod nshards = shard in
     if take then begin
       match split_ws line with
-      | def :: typ :: v :: _ ->
+      | def :: typ :: v :: rest_cols ->
+        (* 5th column D: the element starts with one character data item (the SHORT-NAME made by create_named_sub_element) *)
+        let base_data = (match rest_cols with _ :: "D" :: _ -> true | _ -> false) in
         let def = int_of_string def and typ = int_of_string typ and v = int_of_string v in
         let hsh = ref fnv_init and nlines = ref 0 in
         let out (s : String.t) = hsh := fnv_add (fnv_add !hsh s) "\n"; incr nlines; if verbose then print_endline s in
         let ty = (n_of_int def, n_of_int typ) in
         let name = match elem t (n_of_int def) with Val e -> e.ed_name | _ -> failwith "plan: no such element definition" in
         let h = N0 in
-        let node0 = { n_parent = PModel N0; n_name = name; n_type = ty; n_content = []; n_attrs = []; n_files = [N0]; n_comment = None } in
+        let node0 = { n_parent = PModel N0; n_name = name; n_type = ty; n_content = (if base_data then [CData (DString (bytes_of_string "n"))] else []); n_attrs = []; n_files = [N0]; n_comment = None } in
         let w0 = { w_nodes = (fun i -> if i = N0 then Some node0 else None); w_next = n_of_int 1;
                    w_files = [ { f_model = N0; f_name = bytes_of_string "sweep.arxml"; f_version = n_of_int v; f_standalone = None } ];
                    w_models = [ { m_root = h; m_files = [N0]; m_idents = []; m_origins = [] } ] } in
@@ -200,13 +202,19 @@ let () =
         scenario w0 "0";
         let lst = Array.of_list (listing w0) in
         let l = Array.length lst in
+        (* names that the type lists more than once (with different version masks) are always part of the contents *)
+        let all_names = match sub_element_spec_list t ty with Val x -> List.map (fun (((nm, _), _), _) -> nm) x | _ -> [] in
+        let count nm = List.length (List.filter (fun x -> x = nm) all_names) in
+        let rec take k = function [] -> [] | x :: r -> if k = 0 then [] else x :: take (k - 1) r in
+        let split = take 8 (List.filter (fun i -> count lst.(i).vi_name > 1) (List.init l (fun i -> i))) in
+        let s1 = List.sort_uniq compare (sample l cap1 @ split) in
         List.iter (fun i ->
           let v1 = lst.(i) in
           match create w0 v1.vi_name v1.vi_named "aa1" None with
           | ROk (_, w1) -> scenario w1 (Printf.sprintf "1.%d" i)
           | RErr e -> out (Printf.sprintf "C 1.%d FAIL %s" i (err_char e))
-          | RPanic -> out (Printf.sprintf "C 1.%d FAIL !" i)) (sample l cap1);
-        let s2 = sample l cap2 in
+          | RPanic -> out (Printf.sprintf "C 1.%d FAIL !" i)) s1;
+        let s2 = List.sort_uniq compare (sample l cap2 @ take 2 split) in
         List.iter (fun i ->
           let v1 = lst.(i) in
           List.iter (fun j ->
